@@ -230,6 +230,8 @@ impl FeoxStore {
         }
         self.ensure_ttl_write_supported()?;
         self.validate_key(key)?;
+        #[cfg(feoxdb_verif)]
+        crate::verif::sched("ttl_guard");
 
         let (new_record, old_record, cache_guarded) = self
             .hash_table
@@ -289,9 +291,13 @@ impl FeoxStore {
             })
             .ok_or(FeoxError::KeyNotFound)??;
 
+        #[cfg(feoxdb_verif)]
+        crate::verif::sched("ttl_post");
         if !cache_guarded {
             self.remove_cached(key, &old_record);
         }
+        #[cfg(feoxdb_verif)]
+        crate::verif::sched("ttl_enq");
 
         if let Some(write_buffer) = self.write_buffer.as_ref() {
             write_buffer.add_replacement(new_record, old_record)?;
